@@ -45,6 +45,8 @@ type C08Case struct {
 	Order    uint64 `json:"order"` // insertion order seed
 	Rollback bool   `json:"rollback,omitempty"` // an earlier, HIGHER block history (another fork) is delivered first: the view moves backwards
 	Restage  int    `json:"restage,omitempty"`  // the first k logs are staged at block 1000, and staged again at block 1001 four minutes later (twin: only the later)
+	Quick    bool   `json:"quick,omitempty"`    // observe 1.5 s after feeding the providers: each flow has ticked exactly once, nothing has viewed the proposals yet
+	Second   bool   `json:"second,omitempty"`   // the log proposals surfaced by the previous outcome are proposed again afterwards; a SECOND observation is the one judged
 	AccLower bool   `json:"acc_lower,omitempty"` // in-flight reports for proposals carry a LOWER check block than the stored proposal
 	WarmSeq  uint64 `json:"warm_seq,omitempty"` // if non-zero: Observation is first called with this sequence number (exercises the sorter memo)
 	// observed
@@ -166,7 +168,11 @@ func runC08(t *testing.T, c *C08Case) {
 	}
 	a.Blocks.Publish(hist)
 	b.Blocks.Publish(hist)
-	time.Sleep(7 * time.Second) // log flow (1 s), recovery proposal flow (1 s), two sampling ticks (3 s)
+	if c.Quick {
+		time.Sleep(1500 * time.Millisecond) // log flow and recovery proposal flow have ticked once; the sampling flow (3 s) has not
+	} else {
+		time.Sleep(7 * time.Second) // log flow (1 s), recovery proposal flow (1 s), two sampling ticks (3 s)
+	}
 	synctest.Wait()
 	a.Getter.Set(nil) // freeze the conditional view
 	if c.Restage > 0 {
@@ -224,13 +230,16 @@ func runC08(t *testing.T, c *C08Case) {
 		if i%2 == 0 && i/2 < len(logView) {
 			blocked[logView[i/2].WorkID] = true
 			accept(a, logView[i/2])
+			accept(b, logView[i/2]) // the twin has the same work in flight
 		} else if i/2 < len(condView) {
 			blocked[condView[i/2].WorkID] = true
 			accept(a, condView[i/2])
+			accept(b, condView[i/2])
 		}
 	}
 	// previous outcome: agreed performables are removed from staging, surfaced proposals from metadata
 	removed := map[string]bool{}
+	var surfaced []common.UpkeepPayload // proposals surfaced by the previous outcome (they go to the proposal queue -> final flows)
 	var prevBytes []byte
 	if c.PrevAgr > 0 || c.PrevSurf > 0 {
 		var po ocr2keepers.AutomationOutcome
@@ -257,6 +266,7 @@ func runC08(t *testing.T, c *C08Case) {
 				continue
 			}
 			removed[p.WorkID] = true
+			surfaced = append(surfaced, p)
 			round = append(round, common.CoordinatedBlockProposal{UpkeepID: p.UpkeepID, Trigger: p.Trigger, WorkID: p.WorkID})
 		}
 		po.SurfacedProposals = [][]common.CoordinatedBlockProposal{round}
@@ -269,12 +279,35 @@ func runC08(t *testing.T, c *C08Case) {
 			_, _ = b.Plugin.Observation(context.Background(), ocr3types.OutcomeContext{SeqNr: s}, nil)
 		}
 	}
-	outctx := ocr3types.OutcomeContext{SeqNr: c.Seq, PreviousOutcome: prevBytes}
+	seq := c.Seq
+	outctx := ocr3types.OutcomeContext{SeqNr: seq, PreviousOutcome: prevBytes}
 	obA, errA := a.Plugin.Observation(context.Background(), outctx, nil)
 	obB, errB := b.Plugin.Observation(context.Background(), outctx, nil)
 	if errA != nil || errB != nil {
 		c.Err = fmt.Sprint(errA, errB)
 		return
+	}
+	if c.Second {
+		// the recoverer proposes the same logs again (they were surfaced and removed from the pending set, never
+		// viewed in between); the observation of the NEXT round is the one judged
+		var again []common.UpkeepPayload
+		for _, p := range logView {
+			if removed[p.WorkID] {
+				again = append(again, p)
+				delete(removed, p.WorkID)
+			}
+		}
+		a.Recov.Push(again...)
+		time.Sleep(3 * time.Second)
+		synctest.Wait()
+		seq++
+		outctx = ocr3types.OutcomeContext{SeqNr: seq}
+		obA, errA = a.Plugin.Observation(context.Background(), outctx, nil)
+		obB, errB = b.Plugin.Observation(context.Background(), outctx, nil)
+		if errA != nil || errB != nil {
+			c.Err = fmt.Sprint(errA, errB)
+			return
+		}
 	}
 	c.Len = len(obA)
 	c.PeerOK = peer.Plugin.ValidateObservation(context.Background(), outctx, nil, ocr2plustypes.AttributedObservation{Observation: obA}) == nil
@@ -300,8 +333,8 @@ func runC08(t *testing.T, c *C08Case) {
 
 	// ---- Coq term
 	wid := NewInterner()
-	keyPerf := random.GetRandomKeySource(cd[:], c.Seq/10)
-	keyProp := random.GetRandomKeySource(cd[:], c.Seq)
+	keyPerf := random.GetRandomKeySource(cd[:], seq/10)
+	keyProp := random.GetRandomKeySource(cd[:], seq)
 	type st struct {
 		w    string
 		size int
@@ -326,6 +359,18 @@ func runC08(t *testing.T, c *C08Case) {
 		s := random.ShuffleString(p.WorkID, keyPerf)
 		staged = append(staged, st{p.WorkID, len(enc), s})
 		shs = append(shs, s)
+	}
+	if c.Second {
+		// in the three seconds before the second observation the final flows checked the surfaced proposals
+		// (dequeued from the proposal queue) and staged their results
+		for _, p := range surfaced {
+			r := common.CheckResult{Eligible: true, UpkeepID: p.UpkeepID, Trigger: p.Trigger, WorkID: p.WorkID,
+				GasAllocated: 5_000_000, PerformData: nil, FastGasWei: bigMax(), LinkNative: bigMax()}
+			enc, _ := gojson.Marshal(r)
+			sh := random.ShuffleString(p.WorkID, keyPerf)
+			staged = append(staged, st{p.WorkID, len(enc), sh})
+			shs = append(shs, sh)
+		}
 	}
 	rk := RankOf(shs)
 	var sres []string
@@ -406,6 +451,11 @@ func boundary() []C08Case {
 	add(C08Case{Family: "proposal-in-flight-at-lower-block", Seq: 47, Digest: 1, Staged: 3, LogProps: 7, CondUpk: 9, PropsFly: 6, HistLen: 3, AccLower: true})
 	add(C08Case{Family: "restaged-higher-block-outlives-first-ttl", Seq: 48, Digest: 1, Staged: 12, Restage: 5, PDMode: 2, HistLen: 3})
 	add(C08Case{Family: "restaged-all", Seq: 49, Digest: 2, Staged: 30, Restage: 30, PDMode: 2, HistLen: 3})
+	add(C08Case{Family: "surfaced-then-proposed-again", Seq: 51, Digest: 1, Staged: 6, PDMode: 2, LogProps: 7, CondUpk: 4, PrevSurf: 6, HistLen: 3, Second: true})
+	add(C08Case{Family: "surfaced-then-proposed-again", Seq: 52, Digest: 2, Staged: 0, LogProps: 8, CondUpk: 0, PrevSurf: 9, HistLen: 3, Second: true})
+	add(C08Case{Family: "surfaced-before-any-view-then-proposed-again", Seq: 53, Digest: 1, Staged: 4, PDMode: 2, LogProps: 9, PrevSurf: 8, HistLen: 3, Second: true, Quick: true})
+	add(C08Case{Family: "surfaced-before-any-view-then-proposed-again", Seq: 54, Digest: 2, Staged: 0, LogProps: 12, PrevSurf: 14, HistLen: 0, Second: true, Quick: true})
+	add(C08Case{Family: "surfaced-before-any-view-then-proposed-again", Seq: 55, Digest: 3, Staged: 0, LogProps: 7, PrevSurf: 4, HistLen: 0, Second: true, Quick: true})
 	add(C08Case{Family: "thousands-staged", Seq: 50, Digest: 2, Staged: 3000, PDMode: 0, InFlight: 50, HistLen: 256, LogProps: 5, CondUpk: 5})
 	return cs
 }
@@ -425,6 +475,12 @@ func random08(r *Rng) C08Case {
 	c.HistLen = []int{0, 1, 20, 255, 256, 257, 400}[r.Intn(7)]
 	if r.Chance(1, 3) {
 		c.WarmSeq = 1 + r.U64()%1000
+	}
+	c.Second = c.PrevSurf > 0 && r.Chance(1, 2)
+	c.Quick = r.Chance(1, 3)
+	if c.Quick && r.Chance(1, 2) {
+		c.PrevSurf = 2 + r.Intn(8)
+		c.Second = true
 	}
 	c.Rollback = r.Chance(1, 4)
 	c.AccLower = r.Chance(1, 3)
